@@ -171,6 +171,26 @@ def build(reg, src):
     from replay import c11 as rp
     reg.extra_checks.append(rp.check_spec_renderings)
     reg.extra_checks.append(rp.check_roundtrip_bounded)
+
+    # several objects on one channel: .r must leave the channel exactly behind the object it returned (contracts/c11_read.py)
+    def sequential_read_position(ctx):
+        from pyvc.subverify import subverify
+        from contracts import c11_read
+        rows, sub = subverify(src, 'C11', c11_read, [c11_read.K], replay=rp.replay_sequential_reads,
+                              why='.r leaves the channel exactly behind the object it returned', timeout_s=20)
+        if src.find(c11_read.K) is not None:
+            ctx['eng'].verified[c11_read.K] = dict(sha=src.sha(src.find(c11_read.K)), backend='z3 (contracts/c11_read.py)')
+        ctx['eng'].reg.assumptions += [a for a in sub.reg.assumptions if a not in ctx['eng'].reg.assumptions]
+        if any(r.get('undecided') for r in rows):
+            # the contract cannot be attached to this code: the native battery still decides a concrete failure
+            from pyvc.run import run_replay
+            rr = run_replay(rp.replay_sequential_reads, {}, c11_read.K + '#undecided', timeout_s=60)
+            if rr.get('confirmed'):
+                rows.append(dict(name=c11_read.K + '#undecided.replay-battery-fails', ok=False, backend='native-execution', confirmed=True,
+                                 replay=dict(result=rr), detail=f"proof undecided; the replay battery fails on the real code: {str(rr.get('detail'))[:300]}"))
+        return rows
+    sequential_read_position.__name__ = 'sequential-read-position'
+    reg.extra_checks.append(sequential_read_position)
     reg.replays.append((r'read_list', rp.replay_lists))
     reg.replays.append((r'.', rp.replay_strings))
 
